@@ -10,7 +10,8 @@ MCDev2 == DevDgrams(2)
 MCLiveD == {d \in DevDgrams(1) : d.wf \in {"yes", "badRdata"} /\ d.qm \in {"same", "different"} /\ d.src \in {"dest", "otherAddr"}}
 MCConfigsFull0 == ConfigsOver({"udp", "recv", "fallback"}, {0, 3, 5}, BOOLEAN, {"v4", "v6"})
 MCConfigsFull == MCConfigsFull0 \cup ZeroTimeouts({c \in MCConfigsFull0 : c.fam = "v4" /\ ~c.mcast})
-MCConfigsStatic == ConfigsOver({"udp", "recv", "fallback"}, {0}, BOOLEAN, {"v6"})
+                    \cup WithOpcodes({c \in MCConfigsFull0 : c.fam = "v4" /\ ~c.mcast /\ c.deadline = 5}, {"NOTIFY", "STATUS", "UPDATE"})
+MCConfigsStatic == WithOpcodes(ConfigsOver({"udp", "recv", "fallback"}, {0}, BOOLEAN, {"v6"}), SentOpcodes)
 MCConfigsLive0 == {c \in ConfigsOver({"udp", "recv"}, {0, 3}, {FALSE}, {"v6"}) : c.it /\ ~c.anysrc /\ c.hasq}
 MCConfigsLive == MCConfigsLive0 \cup ZeroTimeouts(MCConfigsLive0)
 =============================================================================
